@@ -22,9 +22,10 @@ func graphProgram(n int, adj [][]int, kinds []int, root int, inSet bool) *ir.Pro
 }
 
 // graphProgramP: place 0 direct Build arguments, 1 one named set, 2 one named set per node
-// (each set alone is acyclic; a cycle only exists in their union), 3 inline NewSet.
+// (each set alone is acyclic; a cycle only exists in their union), 3 inline NewSet, 4 one named set whose bindings
+// sit in a wrapper set around it (a cycle closed by a binding exists only in the wrapper).
 func graphProgramP(n int, adj [][]int, kinds []int, root int, place int) *ir.Program {
-	g := &GraphSpec{N: n, Adj: adj, Nodes: make([]NodeSpec, n), Root: root, InSet: place == 1, PerNode: place == 2, Inline: place == 3}
+	g := &GraphSpec{N: n, Adj: adj, Nodes: make([]NodeSpec, n), Root: root, InSet: place == 1 || place == 4, PerNode: place == 2, Inline: place == 3, BindOuter: place == 4}
 	for i, k := range kinds {
 		g.Nodes[i].Kind = k
 	}
@@ -68,7 +69,7 @@ func checkC07(c *h.Check) {
 	st := explore.Run(-1, func(x *explore.Ctx) {
 		n := 1 + x.Choose("n", maxN)
 		mask := uint64(x.Choose("edges", 1<<uint(n*n)))
-		place := x.Choose("place", 4) // 0 named set, 1 direct, 2 one named set per node, 3 inline set
+		place := x.Choose("place", 5) // 0 named set, 1 direct, 2 one named set per node, 3 inline set, 4 bindings in a wrapper set
 		direct := place != 0
 		if thorough {
 			x.Choose("root", n)
@@ -82,8 +83,8 @@ func checkC07(c *h.Check) {
 				x.Skip() // quick tier: d=1 edge kinds on N=3 only for graphs with at most 3 edges
 				return
 			}
-			if direct {
-				x.Skip() // kind deviations are explored in the named-set placement only
+			if direct && !(place == 4 && kind == 3) {
+				x.Skip() // kind deviations are explored in the named-set placement (and bindings also in the wrapper placement)
 				return
 			}
 		}
@@ -96,7 +97,7 @@ func checkC07(c *h.Check) {
 		if d := ch["devnode"]; d > 0 {
 			kinds[d-1] = 1 + ch["devkind"]
 		}
-		prog := graphProgramP(n, adjFromMask(n, mask), kinds, ch["root"], []int{1, 0, 2, 3}[ch["place"]])
+		prog := graphProgramP(n, adjFromMask(n, mask), kinds, ch["root"], []int{1, 0, 2, 3, 4}[ch["place"]])
 		addGraph("C07/digraph/"+x.ID(), prog)
 	})
 	c.Coverage["family_digraphs"] = map[string]interface{}{"executions": st.Executions, "skipped": st.Skipped, "max_nodes": maxN, "mode": "full product"}
